@@ -42,4 +42,12 @@ CHECKS = {
             dict(name="service", run="^TestPropServiceLevel$", checks=(2000, 20000), shards=(2, 8)),
         ],
     ),
+    "C08": dict(
+        pkg="./c08", level="exploration",
+        runs=[
+            dict(name="order", run="^TestPropEventOrder$", checks=(3000, 25000), shards=(4, 16)),
+            dict(name="groups", run="^TestPropGroupBlocks$", checks=(300, 3000), shards=(2, 8)),
+            
+        ],
+    ),
 }
